@@ -1,15 +1,42 @@
 import XalanModel.Containers.Vector
+import XalanModel.Containers.XMap
+import XalanModel.Containers.Deque
+import XalanModel.Containers.XList
+import XalanModel.Containers.DOMString
 import Driver.Util
 /-
 xm_c20: replays container operation logs on the Lean models.
-Request:  `vec <op> <id> <args…>`     Reply: `<size> <capacity> : <elements…>` | `mem` | `bad`
+Request:  `<kind> <op> <id> <args…>` with kind ∈ vec | map | set | deq | lst | str, or `reset`.
+Reply:    the canonical dump of the container the operation acted on (formats below, identical to
+          what harness/c20_containers.cpp and harness/c20_string.cpp print), `mem` when the model
+          reaches undefined behaviour, `bad` for a malformed request.
 -/
 open XalanModel.Containers
 
 namespace Driver.C20
 
+/-- the colliding hash used by the harness for keys of maps and sets -/
+def khash (k : Nat) : Nat := k / 2
+
 structure St where
   vecs : Array (Vec Int) := Array.replicate 4 Vec.empty
+  maps : Array (XMap Nat Int) := Array.replicate 4 {}
+  sets : Array (XMap Nat Int) := Array.replicate 2 {}
+  deqs : Array (Deq Int) := Array.replicate 4 { blockSize := 10 }
+  lsts : Array (XL Int) := Array.replicate 3 {}
+  lnext : Nat := 0
+  slots : Array (Option Nat) := Array.replicate 4 none     -- saved list iterators (node ids)
+  strs : Array DStr := Array.replicate 4 {}
+
+def nats (l : List String) : Option (List Nat) := l.mapM String.toNat?
+
+def ints (l : List String) : Option (List Int) := l.mapM String.toInt?
+
+/-- `3.4.5` → [3,4,5]; `-` → [] -/
+def units (s : String) : Option (List Nat) :=
+  if s = "-" then some [] else (s.splitOn ".").mapM String.toNat?
+
+/- ---------------------------------------------------------------- vector -/
 
 def showVec (v : Vec Int) : String :=
   s!"{v.items.length} {v.alloc} :" ++ String.join (v.items.map fun x => s!" {x}")
@@ -71,10 +98,301 @@ def vecStep (s : St) : List String → St × String
       let s1 := { s with vecs := (s.vecs.setIfInBounds i vj).setIfInBounds j vi }
       (s1, showVec vj)
     | _, _ => (s, "bad")
+  -- aliasing forms: the value argument is an element of the same vector
+  | ["insself", i, p, n, k] => match i.toNat?, p.toNat?, n.toNat?, k.toNat? with
+    | some i, some p, some n, some k => setV s i ((getV s i).insertNSelf p n k)
+    | _, _, _, _ => (s, "bad")
+  | ["resizeself", i, n, k] => match i.toNat?, n.toNat?, k.toNat? with
+    | some i, some n, some k => setV s i ((getV s i).resizeSelf n k)
+    | _, _, _ => (s, "bad")
+  | ["pushself", i, k] => match i.toNat?, k.toNat? with
+    | some i, some k => setV s i ((getV s i).pushBackSelf k)
+    | _, _ => (s, "bad")
+  | _ => (s, "bad")
+
+/- ---------------------------------------------------------------- map / set -/
+
+def showMap (pre : String) (m : XMap Nat Int) : String :=
+  s!"{pre}{m.size} nb={m.buckets.length} ptr={m.pointerCount} stale={m.staleCount} free={m.free.length} :" ++
+    String.join (m.entries.map fun e => s!" {e.key}={e.val}")
+
+def getM (s : St) (i : Nat) : XMap Nat Int := s.maps.getD i {}
+
+def setM (s : St) (i : Nat) (pre : String) (r : Option (XMap Nat Int)) : St × String :=
+  match r with
+  | some m => ({ s with maps := s.maps.setIfInBounds i m }, showMap pre m)
+  | none => (s, "mem")
+
+def mapStep (s : St) (op : String) (a : List Int) : St × String :=
+  let n (x : Int) : Nat := x.toNat
+  match op, a with
+  | "new", [i, lfn, lfd, minb, thr] => setM s (n i) "" (some (XMap.new (n lfn) (n lfd) (n minb) (n thr)))
+  | "ins", [i, k, v] => setM s (n i) "" (XMap.insert khash (getM s (n i)) (n k) v)
+  | "set", [i, k, v] => setM s (n i) "" (XMap.setAt khash 0 (getM s (n i)) (n k) v)
+  | "find", [i, k] =>
+    match XMap.find khash (getM s (n i)) (n k) with
+    | none => (s, "mem")
+    | some none => (s, showMap "r=nf " (getM s (n i)))
+    | some (some e) => (s, showMap s!"r={e.val} " (getM s (n i)))
+  | "erase", [i, k] =>
+    match XMap.erase khash (getM s (n i)) (n k) with
+    | none => (s, "mem")
+    | some (m, c) => setM s (n i) s!"r={c} " (some m)
+  | "clear", [i] => setM s (n i) "" (XMap.clear (getM s (n i)))
+  | "copy", [i, j] => setM s (n i) "" (XMap.assign khash (getM s (n i)) (getM s (n j)))
+  | "copyctor", [i, j] => setM s (n i) "" (XMap.copyOf khash (getM s (n j)))
+  | "swap", [i, j] =>
+    let mi := getM s (n i); let mj := getM s (n j)
+    if i = j then (s, showMap "" mi) else
+    let ni := XMap.swapInto mi mj; let nj := XMap.swapInto mj mi
+    ({ s with maps := (s.maps.setIfInBounds (n i) ni).setIfInBounds (n j) nj }, showMap "" ni)
+  | _, _ => (s, "bad")
+
+def showSet (pre : String) (m : XMap Nat Int) : String :=
+  s!"{pre}{m.size} :" ++ String.join (m.entries.map fun e => s!" {e.key}")
+
+def getS (s : St) (i : Nat) : XMap Nat Int := s.sets.getD i {}
+
+def setS (s : St) (i : Nat) (pre : String) (r : Option (XMap Nat Int)) : St × String :=
+  match r with
+  | some m => ({ s with sets := s.sets.setIfInBounds i m }, showSet pre m)
+  | none => (s, "mem")
+
+def setStep (s : St) (op : String) (a : List Int) : St × String :=
+  let n (x : Int) : Nat := x.toNat
+  match op, a with
+  | "new", [i] => setS s (n i) "" (some {})
+  | "ins", [i, k] => setS s (n i) "" (XMap.insert khash (getS s (n i)) (n k) 1)
+  | "count", [i, k] =>
+    match XMap.find khash (getS s (n i)) (n k) with
+    | none => (s, "mem")
+    | some none => (s, showSet "r=0 " (getS s (n i)))
+    | some (some _) => (s, showSet "r=1 " (getS s (n i)))
+  | "erase", [i, k] =>
+    match XMap.erase khash (getS s (n i)) (n k) with
+    | none => (s, "mem")
+    | some (m, c) => setS s (n i) s!"r={c} " (some m)
+  | "clear", [i] => setS s (n i) "" (XMap.clear (getS s (n i)))
+  | "copyctor", [i, j] => setS s (n i) "" (XMap.copyOf khash (getS s (n j)))
+  | _, _ => (s, "bad")
+
+/- ---------------------------------------------------------------- deque -/
+
+def showDeq (d : Deq Int) : String :=
+  let sz := d.size
+  let elems := (List.range sz).map fun i => match d.get i with | some x => s!" {x}" | none => " ?"
+  let bk := match d.back with | some x => s!"{x}" | none => "-"
+  s!"{sz} e={if d.isEmpty then 1 else 0} b={bk} :" ++ String.join elems
+
+def getD (s : St) (i : Nat) : Deq Int := s.deqs.getD i { blockSize := 10 }
+
+def setD (s : St) (i : Nat) (r : Option (Deq Int)) : St × String :=
+  match r with
+  | some d => ({ s with deqs := s.deqs.setIfInBounds i d }, showDeq d)
+  | none => (s, "mem")
+
+def deqStep (s : St) (op : String) (a : List Int) : St × String :=
+  let n (x : Int) : Nat := x.toNat
+  match op, a with
+  | "new", [i, bs, k] => if bs ≤ 0 then (s, "bad") else setD s (n i) (some (Deq.create (n bs) (n k) 0))
+  | "push", [i, x] => setD s (n i) (some ((getD s (n i)).pushBack x))
+  | "pop", [i] => setD s (n i) (getD s (n i)).popBack
+  | "resize", [i, k] => setD s (n i) ((getD s (n i)).resize (n k) 0)
+  | "clear", [i] => setD s (n i) (some (getD s (n i)).clear)
+  | "copy", [i, j] => if i = j then (s, showDeq (getD s (n i))) else setD s (n i) (some ((getD s (n i)).assign (getD s (n j))))
+  | "copyctor", [i, j] => setD s (n i) (some (Deq.copyOf (getD s (n j))))
+  | "swap", [i, j] =>
+    let di := getD s (n i); let dj := getD s (n j)
+    if i = j then (s, showDeq di) else
+    let ni := Deq.swapInto di dj; let nj := Deq.swapInto dj di
+    ({ s with deqs := (s.deqs.setIfInBounds (n i) ni).setIfInBounds (n j) nj }, showDeq ni)
+  | _, _ => (s, "bad")
+
+/- ---------------------------------------------------------------- list -/
+
+def getL (s : St) (i : Nat) : XL Int := s.lsts.getD i {}
+
+/-- dump of list `i` (iterating touches the head), with the number of blocks all lists hold -/
+def showLst (s : St) (i : Nat) (pre : String := "") : St × String :=
+  let l := (getL s i).touch
+  let s := { s with lsts := s.lsts.setIfInBounds i l }
+  let total := s.lsts.foldl (fun acc l => acc + l.blocks) 0
+  let f := match l.front with | some x => s!"{x}" | none => "-"
+  let b := match l.back with | some x => s!"{x}" | none => "-"
+  (s, s!"{pre}{l.live.length} blocks={total} f={f} b={b} :" ++ String.join (l.toList.map fun x => s!" {x}") ++ " |" ++
+    String.join (l.toList.reverse.map fun x => s!" {x}"))
+
+def setL (s : St) (i : Nat) (r : Option (XL Int)) : St × String :=
+  match r with
+  | some l => showLst { s with lsts := s.lsts.setIfInBounds i l } i
+  | none => (s, "mem")
+
+def setLN (s : St) (i : Nat) (r : Option (XL Int × Nat × Nat)) : St × String :=
+  match r with
+  | some (l, nx, _) => showLst { s with lsts := s.lsts.setIfInBounds i l, lnext := nx } i
+  | none => (s, "mem")
+
+/-- position `idx` of list `l` as an iterator (idx = size is `end()`) -/
+def posAt (l : XL Int) (idx : Nat) : Option LPos :=
+  if idx = l.live.length then some .endPos else (l.live[idx]?).map fun p => .node p.1
+
+def lstStep (s : St) (op : String) (a : List Int) : St × String :=
+  let n (x : Int) : Nat := x.toNat
+  match op, a with
+  | "new", [i] => showLst { s with lsts := s.lsts.setIfInBounds (n i) {} } (n i)
+  | "pushb", [i, x] => setLN s (n i) ((getL s (n i)).pushBack s.lnext x)
+  | "pushf", [i, x] => setLN s (n i) ((getL s (n i)).pushFront s.lnext x)
+  | "popb", [i] => setL s (n i) (getL s (n i)).popBack
+  | "popf", [i] => setL s (n i) (getL s (n i)).popFront
+  | "insat", [i, idx, x] =>
+    match posAt (getL s (n i)) (n idx) with
+    | none => (s, "mem")
+    | some p => setLN s (n i) ((getL s (n i)).constructNode s.lnext x p)
+  | "eraseat", [i, idx] =>
+    match posAt (getL s (n i)) (n idx) with
+    | none => (s, "mem")
+    | some p => setL s (n i) ((getL s (n i)).erase p)
+  | "save", [slot, i, idx] =>
+    match (getL s (n i)).live[n idx]? with
+    | none => (s, "mem")
+    | some p => showLst { s with slots := s.slots.setIfInBounds (n slot) (some p.1) } (n i) s!"r={p.2} "
+  | "deref", [slot, i] =>
+    match s.slots.getD (n slot) none with
+    | none => (s, "mem")
+    | some id => match (getL s (n i)).deref id with
+      | none => (s, "mem")
+      | some x => showLst s (n i) s!"r={x} "
+  | "insit", [i, slot, x] =>
+    match s.slots.getD (n slot) none with
+    | none => (s, "mem")
+    | some id => setLN s (n i) ((getL s (n i)).constructNode s.lnext x (.node id))
+  | "eraseit", [i, slot] =>
+    match s.slots.getD (n slot) none with
+    | none => (s, "mem")
+    | some id => setL s (n i) ((getL s (n i)).erase (.node id))
+  | "splice", [i, pidx, j, sidx] =>
+    let l := (getL s (n i)).touch; let src := (getL s (n j)).touch
+    match posAt l (n pidx), src.live[n sidx]? with
+    | some p, some nd =>
+      if i = j then setL s (n i) (l.spliceSelf p nd.1)
+      else match l.spliceFrom src p nd.1 with
+        | none => (s, "mem")
+        | some (l', src') =>
+          showLst { s with lsts := (s.lsts.setIfInBounds (n i) l').setIfInBounds (n j) src' } (n i)
+    | _, _ => (s, "mem")
+  | "splicer", [i, pidx, j, x, y] =>
+    let l := (getL s (n i)).touch; let src := (getL s (n j)).touch
+    if i = j then (s, "bad") else
+    match posAt l (n pidx) with
+    | none => (s, "mem")
+    | some p => match l.spliceRangeFrom src p (n x) (n y) with
+      | none => (s, "mem")
+      | some (l', src') =>
+        showLst { s with lsts := (s.lsts.setIfInBounds (n i) l').setIfInBounds (n j) src' } (n i)
+  | "clear", [i] => setL s (n i) (some (getL s (n i)).clear)
+  | "swap", [i, j] =>
+    let li := getL s (n i); let lj := getL s (n j)
+    showLst { s with lsts := (s.lsts.setIfInBounds (n i) lj).setIfInBounds (n j) li } (n i)
+  | "show", [i] => showLst s (n i)
+  | _, _ => (s, "bad")
+
+/- ---------------------------------------------------------------- string -/
+
+def showStr (d : DStr) : String :=
+  let term := match d.data.items[d.size]? with
+    | some t => s!"{t}"
+    | none => if d.data.items.length = 0 ∧ d.size = 0 then "0" else "?"   -- c_str() of an empty buffer is &s_empty
+  s!"{d.size} {d.capacity} t={term} :" ++ String.join (d.chars.map fun x => s!" {x}")
+
+def getStr (s : St) (i : Nat) : DStr := s.strs.getD i {}
+
+def setStr (s : St) (i : Nat) (r : Option DStr) : St × String :=
+  match r with
+  | some d => ({ s with strs := s.strs.setIfInBounds i d }, showStr d)
+  | none => (s, "mem")
+
+def optCount (t : String) : Option (Option Nat) :=
+  if t = "npos" then some none else t.toNat?.map some
+
+def strStep (s : St) : List String → St × String
+  | ["new", i] => match i.toNat? with
+    | some i => setStr s i (some {})
+    | none => (s, "bad")
+  | ["app", i, u] => match i.toNat?, units u with
+    | some i, some xs => setStr s i ((getStr s i).append xs)
+    | _, _ => (s, "bad")
+  | ["appstr", i, j] => match i.toNat?, j.toNat? with
+    | some i, some j => setStr s i ((getStr s i).append (getStr s j).chars)
+    | _, _ => (s, "bad")
+  | ["appsub", i, j, p, cnt] => match nats [i, j, p], optCount cnt with
+    | some [i, j, p], some c =>
+      if i = j then (s, "bad") else setStr s i ((getStr s i).appendSub (getStr s j) p c)
+    | _, _ => (s, "bad")
+  | ["appn", i, n, c] => match nats [i, n, c] with
+    | some [i, n, c] => setStr s i ((getStr s i).appendN n c)
+    | _ => (s, "bad")
+  | ["push", i, c] => match nats [i, c] with
+    | some [i, c] => setStr s i ((getStr s i).pushBack c)
+    | _ => (s, "bad")
+  | ["ins", i, p, u] => match nats [i, p], units u with
+    | some [i, p], some xs => setStr s i ((getStr s i).insert p xs)
+    | _, _ => (s, "bad")
+  | ["insn", i, p, n, c] => match nats [i, p, n, c] with
+    | some [i, p, n, c] => setStr s i ((getStr s i).insertN p n c)
+    | _ => (s, "bad")
+  | ["erase", i, st, cnt] => match nats [i, st], optCount cnt with
+    | some [i, st], some c => setStr s i ((getStr s i).erase st c)
+    | _, _ => (s, "bad")
+  | ["eraseat", i, p] => match nats [i, p] with
+    | some [i, p] => setStr s i ((getStr s i).eraseAt p)
+    | _ => (s, "bad")
+  | ["clear", i] => match i.toNat? with
+    | some i => setStr s i (getStr s i).clear
+    | none => (s, "bad")
+  | ["resize", i, n, c] => match nats [i, n, c] with
+    | some [i, n, c] => setStr s i ((getStr s i).resize n c)
+    | _ => (s, "bad")
+  | ["reserve", i, n] => match nats [i, n] with
+    | some [i, n] => setStr s i (some ((getStr s i).reserve n))
+    | _ => (s, "bad")
+  | ["assign", i, j] => match nats [i, j] with
+    | some [i, j] => if i = j then (s, showStr (getStr s i)) else setStr s i ((getStr s i).assign (getStr s j))
+    | _ => (s, "bad")
+  | ["assignn", i, n, c] => match nats [i, n, c] with
+    | some [i, n, c] => setStr s i ((getStr s i).assignN n c)
+    | _ => (s, "bad")
+  | ["assignsub", i, j, p, c] => match nats [i, j, p, c] with
+    | some [i, j, p, c] =>
+      if i = j then setStr s i ((getStr s i).assignSelfSub p c)
+      else setStr s i ((getStr s i).assignSub (getStr s j) p c)
+    | _ => (s, "bad")
+  | ["substr", i, j, p, cnt] => match nats [i, j, p], optCount cnt with
+    | some [i, j, p], some c =>
+      if i = j then (s, "bad") else setStr s i ((getStr s j).substrInto (getStr s i) p c)
+    | _, _ => (s, "bad")
+  | ["swap", i, j] => match nats [i, j] with
+    | some [i, j] =>
+      let a := getStr s i; let b := getStr s j
+      ({ s with strs := (s.strs.setIfInBounds i b).setIfInBounds j a }, showStr b)
+    | _ => (s, "bad")
   | _ => (s, "bad")
 
 def step (s : St) : List String → St × String
+  | ["reset"] => ({}, "ok")
   | "vec" :: rest => vecStep s rest
+  | "map" :: op :: rest => match ints rest with
+    | some a => mapStep s op a
+    | none => (s, "bad")
+  | "set" :: op :: rest => match ints rest with
+    | some a => setStep s op a
+    | none => (s, "bad")
+  | "deq" :: op :: rest => match ints rest with
+    | some a => deqStep s op a
+    | none => (s, "bad")
+  | "lst" :: op :: rest => match ints rest with
+    | some a => lstStep s op a
+    | none => (s, "bad")
+  | "str" :: rest => strStep s rest
   | _ => (s, "bad")
 
 end Driver.C20
